@@ -7,7 +7,7 @@
     [min burst window] bytes); afterwards the peer closes ([mode] 0), stalls (1) or fails (2).
     [grow] is the reallocation policy of [BytesMut::reserve], only assumed to keep its promise
     ([grow_ok]: the new capacity is at least [len + additional]). *)
-From KV Require Import Bytes RustInt Http1Read Http1ReadProofs Http1ReadParseProofs Http1ReadLocalProofs.
+From KV Require Import Bytes RustInt Http1Read Http1ReadProofs Http1ReadParseProofs Http1ReadLocalProofs Http1ReadLfProofs.
 Open Scope N_scope.
 
 (** parse (print g) = g.  [g] ranges over the request grammar [greq_ok]: a method token of at most
@@ -34,6 +34,23 @@ Theorem parse_print_head : forall https dh (g : greq) extra host auth path query
   parse_request https dh (print_head g ++ extra) =
   Ok (mk_request (g_method g) path query (if g_v11 g then 11 else 10) (g_hmap g) auth extra).
 Proof. exact parse_request_print. Qed.
+
+(** The bare-LF variants the code accepts: the same for a head whose request line ([l0]), header
+    lines ([fl], one flag per line, missing flags = CRLF) and blank line ([lb]) end in a bare LF
+    instead of CRLF, in any mix.  [print_head_e false [] false g = print_head g]. *)
+Theorem parse_print_lf : forall grow mode https dh (max_len : nat) limit (l0 : bool) (fl : list bool) (lb : bool) (g : greq) rest (sched : list nat) e,
+  grow_ok grow -> sched_pos sched -> greq_ok g = true -> (length (print_head_e l0 fl lb g) <= max_len)%nat ->
+  expect https dh limit g rest = Some e ->
+  (N.to_nat (N.min (body_length (g_method g) (g_hmap g)) limit) <= length rest)%nat ->
+  (length (print_head_e l0 fl lb g) + N.to_nat (N.min (body_length (g_method g) (g_hmap g)) limit) <= sum_sched sched)%nat ->
+  exists sv, serve grow mode https dh max_len limit (print_head_e l0 fl lb g ++ rest) sched = Ok sv /\ observed sv = Some e.
+Proof. exact parse_print_lf_lemma. Qed.
+
+Theorem parse_print_head_lf : forall https dh (l0 : bool) (fl : list bool) (lb : bool) (g : greq) extra host auth path query,
+  greq_ok g = true -> g_host dh g = Some host -> parse_uri https host (g_target g) = Some (auth, path, query) ->
+  parse_request https dh (print_head_e l0 fl lb g ++ extra) =
+  Ok (mk_request (g_method g) path query (if g_v11 g then 11 else 10) (g_hmap g) auth extra).
+Proof. exact parse_request_print_e. Qed.
 
 (** Two arbitrary ways of cutting the same bytes into reads (and two growth functions, two end
     modes) give the same request and the same body. *)
@@ -151,3 +168,13 @@ Example segmentation_blind_ex :
   result_view (serve vec_grow 0 false None 64%nat 10 stream [3; 9; 100]%nat) =
   serve_spec 0 false None 64%nat 10 stream.
 Proof. split; [repeat constructor|]. split; [repeat constructor|]. vm_compute. split; reflexivity. Qed.
+
+Example parse_print_lf_ex :
+  print_head_e false [] false ex_req = print_head ex_req /\
+  print_head_e true [false; true] true ex_req =
+    B "POST /p?x=1 HTTP/1.1" ++ [10] ++ B "Host: ex.org" ++ [13; 10] ++ B "Content-Length:5" ++ [10] ++ B "X-A:   b c" ++ [13; 10; 10] /\
+  option_map observed
+    (match serve vec_grow 0 false None 200%nat 65536 (print_head_e true [false; true] true ex_req ++ B "helloGET /next") [2; 60; 100]%nat
+     with Ok sv => Some sv | _ => None end) =
+  Some (expect false None 65536 ex_req (B "helloGET /next")).
+Proof. split; [apply print_head_e_crlf|]. split; vm_compute; reflexivity. Qed.
